@@ -487,6 +487,17 @@ class _Alias:
         self.mvvars = set()              # variables bound to the value of a multi-valued non-sequence DICOM attribute
         self.itemvars = set()            # variables bound to an item of a container (an inner container of the same region)
         self.local_classes = {}
+        self.shared_vars = []            # objects that exist before the call and outlive it (module globals, class attributes,
+        self.shared_names = []           # results of lru_cache'd helpers): extra parameters of the program
+
+    def shared(self, name):
+        """the variable standing for an object that outlives the call: a pseudo-parameter (must not be written either)"""
+        key = '%shared:' + name
+        if key not in self.vars:
+            self.vars[key] = len(self.vars)
+            self.shared_vars.append(self.vars[key])
+            self.shared_names.append(name)
+        return ('var', self.vars[key])
 
     def label(self, name):
         if name not in self.labels:
@@ -554,11 +565,16 @@ class _Alias:
                 return pre, self.compenv[node.id]
             if self.scope + node.id in self.vars:
                 return pre, ('var', self.vars[self.scope + node.id])
+            if node.id in _package()['globals_mut']:
+                return pre, self.shared(node.id)       # a mutable module global: exists before the call, shared by all calls
             return pre, FRESH
         if isinstance(node, ast.Attribute):
             p, b = self.expr(node.value)
             if _scalar_keyword(node.attr):
                 return p, FRESH          # a single-valued non-sequence DICOM attribute: an immutable str / number
+            if node.attr in _package()['class_mut'] and isinstance(node.value, ast.Name):
+                # a mutable class attribute reached through self / cls / the class: the instance's own or the shared one
+                return p, ('join', ('view', self.label(node.attr), b), self.shared(node.attr))
             return p, ('view', self.label(node.attr), b)
         if isinstance(node, ast.Subscript):
             p, b = self.expr(node.value)
@@ -624,6 +640,12 @@ class _Alias:
                     return pa + [('ite', 0, [('assign', t, FRESH)], [('deep', a), ('assign', t, a)])], ('var', t)
                 raise Unsupported(f'{self.fn.name}: converter call with copy={ast.unparse(ck[0])}')
             callee, bind_self = self.resolve(node)
+            if callee is not None and callee.name in _package()['cached']:
+                # an lru_cache'd helper: every call with the same arguments yields the SAME object, which outlives the call
+                for a in args + [k.value for k in node.keywords]:
+                    pe, _ = self.expr(a)
+                    pre += pe
+                return pre, self.shared('cache:' + callee.name)
             if callee is not None:
                 return self.inline(node, callee, bind_self)
             vals = []
@@ -646,6 +668,8 @@ class _Alias:
                 return pre, ('view', SAME, vals[0])         # np.array(x, copy=False): x itself when nothing has to change
             if fname in ('cast', 'typing.cast') and len(args) == 2:
                 return pre, vals[1]
+            if fname.split('.')[-1] in ('Dataset', 'FileMetaDataset') and len(args) == 1 and not node.keywords:
+                return pre, ('view', SAME, vals[0])    # pydicom: `Dataset(other)` shares the element dict of `other` - no copy
             if fname in VIEW_FUNCS and args:
                 if fname == 'getattr' and len(args) >= 2 and isinstance(args[1], ast.Constant) and isinstance(args[1].value, str):
                     return pre, ('view', self.label(args[1].value), vals[0])
@@ -1195,6 +1219,43 @@ class _Alias:
         prog += self.block(strip_doc(self.fn.body), top=True)
         if merge_arms:
             prog = self._flatten(prog)
+        # pseudo-parameters (shared objects) become parameters n, n+1, ...: swap variable numbers
+        n = len(self.params)
+        perm = {}
+        for i, sv in enumerate(self.shared_vars):
+            a_, b_ = perm.get(sv, sv), n + i
+            # swap the roles of the current holders of a_ and b_
+            inv = {v: k for k, v in perm.items()}
+            ka, kb = sv, inv.get(b_, b_)
+            perm[ka], perm[kb] = b_, a_
+
+        def ren_e(e):
+            if e[0] == 'var':
+                return ('var', perm.get(e[1], e[1]))
+            if e[0] == 'view':
+                return ('view', e[1], ren_e(e[2]))
+            if e[0] == 'join':
+                return ('join', ren_e(e[1]), ren_e(e[2]))
+            return e
+
+        def ren_p(p):
+            out = []
+            for st in p:
+                k = st[0]
+                if k == 'assign':
+                    out.append(('assign', perm.get(st[1], st[1]), ren_e(st[2])))
+                elif k in ('write', 'deep', 'ret'):
+                    out.append((k, ren_e(st[1])))
+                elif k == 'link':
+                    out.append(('link', ren_e(st[1]), st[2], ren_e(st[3])))
+                elif k == 'ite':
+                    out.append(('ite', st[1], ren_p(st[2]), ren_p(st[3])))
+                else:
+                    out.append(st)
+            return out
+        if perm:
+            prog = ren_p(prog)
+        self.nparams = n + len(self.shared_vars)
         while True:
             used = set()
             n = -1
@@ -1205,7 +1266,7 @@ class _Alias:
             if new == prog:
                 break
             prog = new
-        prog = self._slice(prog, len(self.params))
+        prog = self._slice(prog, self.nparams)
         # dense condition numbers
         order = []
 
@@ -1247,6 +1308,14 @@ def _package():
     if _PKG.get('root') == root:
         return _PKG
     funcs, methods, classes = {}, {}, {}
+    cached, globals_mut, class_mut = set(), set(), set()
+
+    def is_cached(fn):
+        for d in fn.decorator_list:
+            t = ast.unparse(d.func if isinstance(d, ast.Call) else d).split('.')[-1]
+            if t in ('lru_cache', 'cache'):
+                return True
+        return False
     for dp, _, fs in sorted(os.walk(root)):
         for f in sorted(fs):
             if not f.endswith('.py') or f in ('_modules.py', '_iods.py', '_icc_profiles.py'):
@@ -1260,13 +1329,26 @@ def _package():
             for node in tree.body:
                 if isinstance(node, ast.FunctionDef):
                     funcs.setdefault(node.name, []).append(node)
+                    if is_cached(node):
+                        cached.add(node.name)
                 elif isinstance(node, ast.ClassDef):
                     classes.setdefault(node.name, node)
                     for m in node.body:
                         if isinstance(m, ast.FunctionDef):
                             methods.setdefault(m.name, []).append((node.name, m, mod))
+                            if is_cached(m):
+                                cached.add(m.name)
+                        elif isinstance(m, (ast.Assign, ast.AnnAssign)) and m.value is not None:
+                            tg = m.targets[0] if isinstance(m, ast.Assign) else m.target
+                            if isinstance(tg, ast.Name) and not _immutable_value(m.value):
+                                class_mut.add(tg.id)
+                elif isinstance(node, (ast.Assign, ast.AnnAssign)) and node.value is not None:
+                    tg = node.targets[0] if isinstance(node, ast.Assign) else node.target
+                    if isinstance(tg, ast.Name) and tg.id != '__all__' and not _immutable_value(node.value):
+                        globals_mut.add(tg.id)
     _PKG.clear()
-    _PKG.update(root=root, funcs=funcs, methods=methods, classes=classes)
+    _PKG.update(root=root, funcs=funcs, methods=methods, classes=classes, cached=cached, globals_mut=globals_mut,
+                class_mut=class_mut)
     return _PKG
 
 
@@ -1374,10 +1456,11 @@ def make_alias_target(tag):
                 continue
             spans.append(fn)
             conds = '; '.join(f'{i}: {c}' for i, c in enumerate(a.cond_texts) if i or a.has_copy)
-            aux, term = _render_entry(qual, len(a.params), len(a.cond_texts), a.has_copy, prog, _ident(tag, qual, len(entries)))
+            aux, term = _render_entry(qual, a.nparams, len(a.cond_texts), a.has_copy, prog, _ident(tag, qual, len(entries)))
             auxdefs.append(aux)
             info = (f'inlined {len(a.inlined)} internal calls: {", ".join(sorted(set(a.inlined)))[:600]}; external callees given a '
-                    f'reference (assumed read-only): {", ".join(sorted(a.external))[:600]}')
+                    f'reference (assumed read-only): {", ".join(sorted(a.external))[:600]}'
+                    + (f'; shared objects as extra parameters: {", ".join(a.shared_names)}' if a.shared_names else ''))
             entries.append(f'  -- {qual}({", ".join(a.params)})   conditions: {conds}\n  -- {info}\n  ' + term)
         if not entries and not skipped:
             raise Unsupported(f'no converter found for {tag}')
@@ -1511,10 +1594,11 @@ def make_ctor_target(tag):
                 continue
             spans.append(fn)
             conds = '; '.join(f'{i}: {c}' for i, c in enumerate(a.cond_texts) if i)
-            aux, term = _render_entry(qual, len(a.params), len(a.cond_texts), False, prog, _ident('c_' + tag, qual, len(entries)))
+            aux, term = _render_entry(qual, a.nparams, len(a.cond_texts), False, prog, _ident('c_' + tag, qual, len(entries)))
             auxdefs.append(aux)
             info = (f'inlined {len(a.inlined)} internal calls: {", ".join(sorted(set(a.inlined)))[:600]}; external callees given a '
-                    f'reference (assumed read-only): {", ".join(sorted(a.external))[:600]}')
+                    f'reference (assumed read-only): {", ".join(sorted(a.external))[:600]}'
+                    + (f'; shared objects as extra parameters: {", ".join(a.shared_names)}' if a.shared_names else ''))
             entries.append(f'  -- {qual}({", ".join(a.params)})   conditions: {conds[:1500]}\n  -- {info}\n  ' + term)
         if not entries and not skipped:
             raise Unsupported(f'no constructor found for {tag}')
